@@ -165,3 +165,39 @@ pub fn threads_line(line: &str) -> String {
         format!("MISMATCH:{}\t{}", b, expected.join(";"))
     }
 }
+
+// in: pat text casei(0|1) btlimit(-|n) size_limit(-|n) dfa_limit(-|n) ; out: build outcome + find:0 + caps:0   (C14)
+pub fn opts_line(line: &str) -> String {
+    let f: Vec<&str> = line.split('\t').collect();
+    let pat = unhex_str(f[0]);
+    let text = unhex_str(f[1]);
+    let mut b = fancy_regex::RegexBuilder::new(&pat);
+    if f[2] == "1" {
+        b.case_insensitive(true);
+    }
+    if f[3] != "-" {
+        b.backtrack_limit(f[3].parse().unwrap());
+    }
+    if f[4] != "-" {
+        b.delegate_size_limit(f[4].parse().unwrap());
+    }
+    if f[5] != "-" {
+        b.delegate_dfa_size_limit(f[5].parse().unwrap());
+    }
+    match catch_unwind(AssertUnwindSafe(|| b.build())) {
+        Err(_) => "build=PANIC".into(),
+        Ok(Err(e)) => format!("build=err:{}", error_kind(&e)),
+        Ok(Ok(re)) => {
+            let kind = if fancy_regex::verif_hooks::is_fancy(&re) { "fancy" } else { "wrap" };
+            let r = catch_unwind(AssertUnwindSafe(|| match re.captures(&text) {
+                Ok(Some(c)) => (0..c.len())
+                    .map(|i| c.get(i).map(|m| format!("{}-{}", m.start(), m.end())).unwrap_or("-".into()))
+                    .collect::<Vec<_>>()
+                    .join(","),
+                Ok(None) => "none".into(),
+                Err(e) => format!("ERR:{}", error_kind(&e)),
+            }));
+            format!("build=ok:{}\tcaps={}", kind, r.unwrap_or("PANIC".into()))
+        }
+    }
+}
